@@ -7,7 +7,7 @@ func init() {
 			Old: "	maxHeight uint8 = 48", New: "	maxHeight uint8 = 64",
 			Expect: "store-bounded-by-type"},
 		{Name: "buckets-become-a-slice", File: "shachain/store.go",
-			Old: "	buckets [maxHeight]element", New: "	buckets []element",
+			Old: "	buckets [maxHeight + 1]element", New: "	buckets []element",
 			Expect: "store-bounded-by-type"},
 
 		// secret-stored-only-if-consistent
